@@ -124,7 +124,8 @@ def contexts_line2(scenario: int, first: int, lo: int, a: int, b: int) -> int:
 @harness("C15", lemma="inherit", cubes={"first": [0, 1]}, pre=["0 <= a <= 12", "a <= b <= 12", "b <= c <= 12"],
          example=dict(first=0, a=1, b=3, c=5), timeout=600,
          bounds="parent thread: enter p1, request, exit, enter p2, request, exit; child thread: inherit(parent), request, enter own runtime, request, exit, request; "
-                "every schedule with up to 3 context switches at operation granularity",
+                "every schedule with up to 3 context switches at operation granularity; afterwards 6 fresh threads, started after "
+                "parent and child have died",
          what="the child is served by the handlers the parent had at the moment inherit() ran (the default ones if the parent had "
               "no entered runtime then), and keeps them whatever the parent does afterwards")
 def inherit(first: int, a: int, b: int, c: int) -> int:
@@ -167,6 +168,19 @@ def inherit(first: int, a: int, b: int, c: int) -> int:
         return 0
     if wc.results[1] != want or wc.results[3] != "child-own" or wc.results[5] != want:
         return 0          # the inherited handlers serve before and AFTER a block of the child's own
+    # both threads are finished now; threads started LATER (they may reuse the dead threads' native ids) that never inherit
+    # and never enter anything are served by the defaults
+    with untraced():
+        wp.join()
+        wc.join()
+        later = []
+        for _ in range(6):
+            t = threading.Thread(target=lambda: later.append(_serve(RA)))
+            t.start()
+            t.join()
+    if later != ["dflt"] * 6:
+        note("threads started after the workers died were served by", later)
+        return 0
     return 2
 
 
@@ -283,3 +297,42 @@ def evaluate_line1(first: int, warm: bool, a: int) -> int:
          bounds=_EB + "; every schedule with two context switches", what=_EW)
 def evaluate_line2(first: int, warm: bool, lo: int, a: int, b: int) -> int:
     return _evaluate(first, warm, (a, b))
+
+
+
+# ---------------------------------------------------------------------------------------------------------
+RVE_STEPS = 420      # measured upper bound of opcode steps (evaluation in overload.py / conditional.py + one registration)
+
+
+@harness("C15", lemma="register-vs-evaluate", cubes={"first": [0, 1], "lo": list(range(0, RVE_STEPS, 60))},
+         pre=["lo <= a < lo + 60"], example=dict(first=0, lo=0, a=30), timeout=900,
+         bounds="one thread evaluates a dataset (dispatch value not registered yet) while another registers two overloads, with a "
+                "yield point before every bytecode of labrea/overload.py and labrea/conditional.py; every schedule with one switch",
+         what="whatever the interleaving of a registration with an evaluation, evaluations made AFTER both threads finished dispatch "
+              "to the registered implementations (a registration is never lost to a concurrent reader)")
+def register_vs_evaluate(first: int, lo: int, a: int) -> int:
+    import labrea.conditional as lconditional
+
+    sched = Sched()
+    with untraced():
+        def base(x: int = Option("A", 0)):
+            return ("base", x)
+
+        d = dataset.nocache(base, dispatch="D")
+    d.overloads._lock = CoopLock(sched)
+    files = (loverload.__file__, lconditional.__file__)
+    ws = [Worker(sched, [lambda: d({"D": "zz"}), lambda: d.keys({"D": "zz"})], "opcode", files),
+          Worker(sched, [lambda: d.register("b1", Value("impl-b")) and None, lambda: d.register("b2", Value("impl-b")) and None], "opcode", files)]
+    n = run_two(ws, first, (a,), bound=1024)
+    with untraced():
+        after = [d({"D": "b1"}), d({"D": "b2"}), d({"D": "zz"})]
+    note("first", first, "switch after", a, "steps", n, "reader saw", ws[0].results, "afterwards", after)
+    if n > RVE_STEPS or min(w.steps for w in ws) < 5:
+        raise RuntimeError("scheduler bound / observation problem: %r steps" % n)
+    if not all(w.finished for w in ws):
+        return 0
+    if ws[0].results[0] != ("base", 0):
+        return 0
+    if after != ["impl-b", "impl-b", ("base", 0)]:
+        return 0
+    return 2
